@@ -120,14 +120,18 @@ impl CertReloader {
         info!("[CertReloader] Reloading certificate...");
 
         // Load new certificate
-        let new_config =
-            create_server_config_from_files(&self.config.cert_path, &self.config.key_path)?;
+        // Each file is read exactly once: the acceptor and the reported information are built
+        // from the same bytes (the certificate file used to be read a second time for the
+        // information, so a change landing in between made the two disagree).
+        let cert_pem = std::fs::read(&self.config.cert_path).map_err(AnyTlsError::Io)?;
+        let key_pem = std::fs::read(&self.config.key_path).map_err(AnyTlsError::Io)?;
+        let new_config = crate::util::create_server_config_from_pem(&cert_pem, &key_pem)?;
         let new_acceptor = Arc::new(TlsAcceptor::from(new_config));
         #[cfg(feature = "verif")]
         crate::verif::sync_point("reload:after_config");
 
         // Analyze new certificate
-        let new_cert_info = CertificateInfo::from_pem_file(&self.config.cert_path)?;
+        let new_cert_info = CertificateInfo::from_pem_bytes(&cert_pem)?;
 
         // Log changes
         if let Some(ref old_info) = *self.cert_info.read().unwrap() {
